@@ -856,6 +856,63 @@ theorem inv_passRead {cfg : Cfg E} (hfr : Frame cfg) (s s' : State E)
               exact SI_other (s := s) hfr (fun _ _ => ⟨rfl, rfl⟩) hm rfl (hS hen hd)
   · simp at h
 
+/-- A failing / skipped read of a port without expression is a stuttering step for every expression port. -/
+theorem inv_passSkip {cfg : Cfg E} (hfr : Frame cfg) (s s' : State E)
+    (hI : Inv cfg s) (h : step? cfg s .passSkip = some s') : Inv cfg s' := by
+  simp only [step?] at h
+  split at h
+  · rename_i ps hps
+    split at h
+    · simp at h
+    · rename_i hnh
+      simp at hnh
+      split at h
+      · simp at h
+      · rename_i q rest htodo
+        split at h
+        · rename_i hq
+          simp at h; subst h
+          obtain ⟨hnd, _⟩ := hI.1 ps hps
+          rw [htodo] at hnd
+          have hndr : rest.Nodup := (List.nodup_cons.1 hnd).2
+          have hm : ObMono s ⟨s.port, s.forced, s.forceAll,
+              some ⟨ps.owner, rest, ps.changed, ps.handling, ps.forced, ps.all⟩⟩ :=
+            ⟨fun x h => .inl h, fun h => .inl h, fun ps0 h0 => by
+              rw [hps] at h0; cases h0
+              exact ⟨_, rfl, id, fun _ h => h, fun _ h => h⟩⟩
+          refine ⟨?_, fun p hp e he => ?_⟩
+          · intro ps1 h1
+            simp at h1; subst h1
+            exact ⟨hndr, by simp [hnh]⟩
+          · obtain ⟨hM, hS⟩ := hI.2 p hp e he
+            -- the skipped port carries no expression, `p` does
+            have hpq : p ≠ q := by
+              intro hpq
+              subst hpq
+              simp only at he
+              simp [he] at hq
+            constructor
+            · refine MI_other (s := s) rfl (fun ps0 h0 h1 _ => ?_) (fun _ hfo => .inl ?_) hM
+              · rw [hps] at h0; cases h0
+                refine ⟨_, rfl, h1, fun hnot => .inl ?_⟩
+                rw [htodo]
+                simp at hnot ⊢
+                exact ⟨hpq, hnot⟩
+              · rcases hfo with hfo | hfo | ⟨ps0, h0, g1, g2⟩
+                · exact .inl hfo
+                · exact .inr (.inl hfo)
+                · rw [hps] at h0; cases h0
+                  refine .inr (.inr ⟨_, rfl, g1, ?_⟩)
+                  rw [htodo] at g2
+                  simp at g2
+                  rcases g2 with g2 | g2
+                  · exact absurd g2 hpq
+                  · exact g2
+            · intro hen hd
+              exact SI_other (s := s) hfr (fun _ _ => ⟨rfl, rfl⟩) hm rfl (hS hen hd)
+        · simp at h
+  · simp at h
+
 /-- The port table after `passHandleB` (same expression as in `step?`). -/
 def hbPort (cfg : Cfg E) (s : State E) (ps : Pass) : PortId → PortSt E :=
   let snap := view s
@@ -1011,6 +1068,7 @@ theorem inv_step {cfg : Cfg E} (hfr : Frame cfg) (hrc : cfg.repConfirm = true) (
   cases a with
   | passBegin o => exact inv_passBegin hfr hcap s s' o hI h
   | passRead => exact inv_passRead hfr s s' hI h
+  | passSkip => exact inv_passSkip hfr s s' hI h
   | passHandleA => exact inv_passHandleA hfr hcap s s' hI h
   | passHandleB => exact inv_passHandleB hfr s s' hI h
   | evalTake p => exact inv_evalTake hfr s s' p hI h
